@@ -88,6 +88,10 @@ def duck_specs(draw, max_nq=8, max_na=10, max_ntv=6, max_nt=6, low_floor=0.5, lo
         t0 = draw(st.sampled_from([0.0, 0.0, 10.0, 300.0]))
         dt = draw(st.sampled_from([1.0, 10.0, 25.0]))
         T = [t0 + dt * k for k in range(n)]
+    elif long_grids and draw(st.integers(0, 19)) == 0:
+        # dense Brillouin-zone meshes (the shipped diopside example has 150 q-points, production meshes have more)
+        nq, na, ntv = draw(st.sampled_from([257, 300, 513])), 1, 1
+        T = draw(temperatures(1, 2, low_floor))
     else:
         T = draw(temperatures(1, max_nt, low_floor))
     seed = draw(st.integers(0, 2 ** 32 - 1))
